@@ -476,11 +476,13 @@ int main(int argc, char **argv) {
   }
   // long integer tracks with large alphabets of corrections (1500 .. 13000 distinct symbols: the raw scheme's 11..14-bit coders, chosen
   // by speed): implementation only (the extracted model is too slow on tables of this size), every speed class
-  if (na > 0) for (int V : {800, 1600, 3200, 6400}) for (int speed : {0, 3, 4, 7, 10}) {
+  if (na > 0) for (int V : {800, 1600, 3200, 6400}) for (int speed : {0, 3, 4, 7, 10}) for (int still = 0; still < 2; still++) {
     KeyframeAnimation anim; const int frames = thorough ? 9000 : 4000, nc = 4; std::vector<float> ts(frames); for (int f = 0; f < frames; f++) ts[f] = (float)f * 0.04f; anim.SetTimestamps(ts);
-    std::vector<int32_t> d((size_t)frames * nc); for (auto &x : d) x = (int32_t)r.below(V); const int id = anim.AddKeyframes(DT_INT32, nc, d);
+    // still = 1: a mostly still track (three quarters of the values repeat the previous frame: one correction with probability > 1/2 next to
+    // a large alphabet of rare ones)
+    std::vector<int32_t> d((size_t)frames * nc); for (size_t q = 0; q < d.size(); q++) d[q] = (still && q >= (size_t)nc && r.chance(75)) ? d[q - nc] : (int32_t)r.below(V); const int id = anim.AddKeyframes(DT_INT32, nc, d);
     EncoderOptions opt = EncoderOptions::CreateDefaultOptions(); opt.SetSpeed(speed, speed); EncoderBuffer eb; KeyframeAnimationEncoder enc; Status s = enc.EncodeKeyframeAnimation(anim, opt, &eb);
-    const std::string tag = "long int32 track, values below " + S(V) + ", " + S(frames) + " frames x " + S(nc) + " components, speed " + S(speed);
+    const std::string tag = std::string(still ? "mostly still " : "") + "long int32 track, values below " + S(V) + ", " + S(frames) + " frames x " + S(nc) + " components, speed " + S(speed);
     if (!s.ok()) { o.fail(std::string("C20 animation encode failed: ") + s.error_msg() + " " + tag); continue; }
     DecoderBuffer db; db.Init(eb.data(), eb.size()); KeyframeAnimation out; KeyframeAnimationDecoder dec; DecoderOptions dopt; Status ds = dec.Decode(dopt, &db, &out);
     if (!ds.ok()) { o.fail(std::string("C20 animation encode ok but decode failed (") + ds.error_msg() + "): " + tag); continue; }
